@@ -82,3 +82,7 @@ func Scribble(slices ...[]byte) (restore func()) {
 		}
 	}
 }
+
+// Zones whose local calendar has days without a local midnight or skipped days (plus ordinary ones): the process's local
+// zone is a configuration the library could observe through package time.
+var Zones = []string{"Pacific/Apia", "America/Sao_Paulo", "Pacific/Kiritimati", "Pacific/Kwajalein", "Europe/Prague", "America/New_York"}
